@@ -572,13 +572,14 @@ BENIGN_BUNDLES = [
 
 # where a climb of k levels above the working directory ends, and names that exist / can be created there
 LANDINGS = {
-    1: ["evil.txt", "producer/evil.txt", "sib.txt", "nd/evil.txt"],
+    # (the last two: siblings whose NAME extends the working directory's name - a string-prefix test calls them "inside")
+    1: ["evil.txt", "producer/evil.txt", "sib.txt", "nd/evil.txt", "consumer.old/evil.txt", "consumer2/evil.txt"],
     2: ["evil.txt", "stage0/evil.txt"],
     3: ["evil.txt", "data/evil.txt", "conf/evil.txt", "nd/evil.txt"],
-    4: ["evil.txt", "p.instance/evil.txt"],
+    4: ["evil.txt", "p.instance/evil.txt", "p.instance.old/evil.txt"],
     5: ["outside/evil.txt", "outside/sentinel.txt", "outside/dir/evil.txt", "evil.txt", "outside/nd/evil.txt"],
 }
-DIR_LANDINGS = {1: ["", "producer"], 2: ["", "stage0"], 3: ["", "data", "conf"], 4: [""],
+DIR_LANDINGS = {1: ["", "producer", "consumer.old"], 2: ["", "stage0"], 3: ["", "data", "conf"], 4: [""],
                 5: ["outside", "outside/dir", ""]}
 PREFIXES = ["", "./", "d1/../", "d1/./../", "nodir/../"]
 ABS_OUT = "{ROOT}/" + OUT
@@ -693,7 +694,7 @@ def stage_case(draw):
         for j in range(n):
             tech = draw(st.sampled_from(TAR_TECHS))
             k = draw(st.sampled_from([1, 1, 3, 5, 5, 2, 4]))
-            groups.append(hostile_bundles(tech, k, draw(st.integers(0, 4)), 10 + j, draw(st.integers(0, 5))))
+            groups.append(hostile_bundles(tech, k, draw(st.integers(0, 5)), 10 + j, draw(st.integers(0, 5))))
             tags.append(tech)
         members = draw(archive_members(nb, groups))
         refs.append(dict({"kind": "extract", "src": "data/a0.tar", "members": members, "tags": tags}, **fmt))
@@ -753,7 +754,7 @@ def stage_case(draw):
                                                              "more.txt": {"type": "file", "content": "MORE"}}}})
         else:   # cross-archive: the link comes from the first archive, the write below it from the second
             k = draw(st.sampled_from([1, 3, 5]))
-            parts = hostile_bundles("symlink-then-below", k, draw(st.integers(0, 4)), 10, draw(st.integers(0, 5)))
+            parts = hostile_bundles("symlink-then-below", k, draw(st.integers(0, 5)), 10, draw(st.integers(0, 5)))
             refs.append(dict({"kind": "extract", "src": "data/a0.tar",
                               "members": draw(archive_members(nb, [[parts[0]]])), "tags": tags}, **fmt))
             refs.append(dict({"kind": "extract", "src": "data/a1.tar",
@@ -763,7 +764,7 @@ def stage_case(draw):
 
 # manifests ------------------------------------------------------------------------------------------------
 BENIGN_KEYS = ["bin", "special", "n1/n2", "data", "m1/m2/m3", "hooks", "lib"]
-DP_LAND = {1: ["esc", "w2/esc", "nd/esc"], 2: ["esc", "outside/esc", "outside/dir/esc", "pkgsrc/s3/esc"]}
+DP_LAND = {1: ["esc", "w2/esc", "nd/esc", "inst.instance.old/esc", "inst.instance2"], 2: ["esc", "outside/esc", "outside/dir/esc", "pkgsrc/s3/esc"]}
 
 
 def manifest_hostile(tech, k, land, variant):
@@ -812,7 +813,7 @@ def deploy_case(draw):
     if mode == "hostile":
         tech = draw(st.sampled_from(MAN_TECHS))
         tags.append(tech)
-        special = manifest_hostile(tech, draw(st.sampled_from([1, 2])), draw(st.integers(0, 3)), draw(st.integers(0, 11)))
+        special = manifest_hostile(tech, draw(st.sampled_from([1, 2])), draw(st.integers(0, 4)), draw(st.integers(0, 11)))
     elif mode == "ambiguous":
         tags.append("ambiguous")
         special = [{"key": draw(st.sampled_from(AMBIG_KEYS)), "src": "s1", "method": draw(st.sampled_from([None, "link"]))}]
@@ -840,7 +841,7 @@ def catalogue():
             if tech in ("symlink-then-same-name", "hardlink-outside", "hardlink-via-link", "absolute-file", "dot-link") \
                     and k != 5:
                 continue
-            for land in range(3):
+            for land in range(max(3, len(LANDINGS[k])) if tech in ("dotdot-file", "dotdot-dir") else 3):
                 for variant in range(6 if tech in ("dotdot-file", "symlink-then-below") else 2):
                     parts = hostile_bundles(tech, k, land, 10, variant)
                     for position in (0, 1, 2):
@@ -881,7 +882,7 @@ def catalogue():
             for k in (1, 2):
                 if tech != "dotdot-key" and k != 1:
                     continue
-                for land in range(4 if tech == "dotdot-key" else 1):
+                for land in range(len(DP_LAND[k]) if tech == "dotdot-key" else 1):
                     for variant in range(12 if tech == "dotdot-key" else 6):
                         ents = manifest_hostile(tech, k, land, variant)
                         for position in (0, 1):
